@@ -356,10 +356,11 @@ Inductive case :=
        leader answers to that index, and then receives the broadcasts of `pending`; its own SaveRegion fails for the
        regions in `fail_ids`.  `msgs` = the messages actually delivered, in order. *)
 | CChain (leader_persisted : option Z) (leader_records regions : list rinfo)
-         (follower_persisted : option Z) (follower_stored : list rmeta) (pending : list rinfo)
+         (follower_persisted : option Z) (follower_stored : list rinfo) (pending : list rinfo)
          (msgs : list msg) (fcache : list rinfo) (fnext : Z).
-    (* a follower that starts with `follower_stored` in its own region storage (loaded into its cache by
-       LoadRegionsOnce, in id order), synchronises with the leader as in CSync, and then receives the broadcasts of
+    (* a follower that starts with `follower_stored` in its cache — loaded from its own region storage by
+       LoadRegionsOnce (in id order, no leader, no statistics), or cached with terms > 0 while it was the leader
+       itself (the regions the sync client builds carry no term) — synchronises with the leader as in CSync, and then receives the broadcasts of
        `pending` as in CBcast (its index no longer matches the leader's: it resets) *)
     (* a follower in sync with the leader at `leader_persisted`; `pending` is queued on the notifier
        channel before RunServer starts; observed: the broadcast messages and the follower *)
@@ -386,12 +387,12 @@ Definition model_sync (lp : option Z) (lrecs regions : list rinfo) (fp : option 
   let f := fold_left apply_msg ms f0 in
   SO ms (sort_by_id (f_cache f)) (next_index (buf (f_hist f))) (dedup_sorted (sortZ (map m_id (f_saved f)))).
 
-Definition model_chain (lp : option Z) (lrecs regions : list rinfo) (fp : option Z) (stored : list rmeta)
+Definition model_chain (lp : option Z) (lrecs regions : list rinfo) (fp : option Z) (stored : list rinfo)
                        (pending : list rinfo) : sync_out :=
   let lh := leader_hist lp lrecs in
   let f0 := finit Gen_C16.defaultHistoryBufferSize fp in
-  let cache0 := fold_left check_and_put (map (fun m => RI m None zero_stat) stored) [] in
-  let f1 := FS cache0 (rev stored) (f_hist f0) in
+  let cache0 := fold_left check_and_put stored [] in
+  let f1 := FS cache0 (map meta (rev stored)) (f_hist f0) in
   let '(_, ms1) := sync_history (buf lh) regions (next_index (buf (f_hist f0))) in
   let ms2 := run_server_batches (S (length pending)) (next_index (buf lh)) pending in
   let f := fold_left apply_msg (ms1 ++ ms2) f1 in
